@@ -563,6 +563,42 @@ def _ends_in_return(body):
     return False
 
 
+def helper_cone(model, fi, depth=3):
+    """[fi] plus the functions that do not exist in the reference tree and are
+    called (statically resolvable) from it, transitively: where a rule asks
+    'does this function compute X somewhere', statements moved into a new helper
+    that could not be expanded inline still count."""
+    ex = getattr(model, "_expander", None)
+    if ex is None:
+        ex = Expander(model)
+        model._expander = ex
+    out, todo = [fi], [(fi, 0)]
+    seen = {id(fi.node)}
+    if ex.ref is None:
+        return out
+    while todo:
+        f, d = todo.pop()
+        if d >= depth:
+            continue
+        nested = {n.name: n for n in f.node.body
+                  if isinstance(n, ast.FunctionDef)}
+        for c in ast.walk(f.node):
+            if not isinstance(c, ast.Call):
+                continue
+            try:
+                tgt = ex.resolve(f, c, nested)
+            except Exception:
+                tgt = None
+            if not tgt or id(tgt[0]) in seen:
+                continue
+            seen.add(id(tgt[0]))
+            for cand in model.funcs.values():
+                if cand.node is tgt[0]:
+                    out.append(cand)
+                    todo.append((cand, d + 1))
+    return out
+
+
 def expand_new_helpers(model):
     """Expand calls to helpers that are new relative to the reference tree in
     every function of the non-schema modules.  Returns {function: [helpers]}."""
